@@ -1359,9 +1359,30 @@ class Interp:
                 return [(st, T.NONE)]
         return None
 
+    def _global_tuple(self, g, st):
+        mod = self.m.modules.get(g[1])
+        vals = mod.assigns.get(g[2]) if mod else None
+        if not vals or len(vals) != 1 or \
+                not isinstance(vals[0], (ast.Tuple, ast.List)):
+            return None
+        saved = (st.module, st.cls, st.env)
+        st.module, st.cls, st.env = g[1], None, {}
+        items = []
+        try:
+            for el in vals[0].elts:
+                if not isinstance(el, (ast.Name, ast.Attribute)):
+                    return None
+                items.append(self.ev(el, st)[0][1])
+        finally:
+            st.module, st.cls, st.env = saved
+        return ('tuple', tuple(items))
+
     def _call_builtin(self, e, st, name, args, kw):
         if name == 'isinstance' and len(args) == 2:
             cls = args[1]
+            if cls[0] == 'global':
+                # a tuple of classes kept in a module-level constant
+                cls = self._global_tuple(cls, st) or cls
             names = []
             for c in (cls[1] if cls[0] == 'tuple' else (cls,)):
                 if c[0] == 'cls':
